@@ -258,7 +258,13 @@ def run(prog: Program, rep: Report, tier: str = "quick") -> None:
     from . import game
 
     game.add_instances(rep, game.c03_job, [(i, tier) for i in range(n)], "R3.5", 30 * n)
+    from . import c01
+
+    game.add_instances(rep, c01.closed_form_job, [(i, tier, "R3.6") for i in range(n)], "R3.6", 28 * n)
+    rep.arbitrate({"R3.2", "R3.3"}, "R3.5", "scores are ranks negated; omitted ranks are the positions")
+    rep.arbitrate({"R3.4"}, "R3.6", "ties are exactly the equal values: the stored terms are the closed forms under every weak ordering of the values")
     rep.supersede({"R3.2", "R3.3"}, "R3.5", "scores are ranks negated; omitted ranks are the positions")
+    rep.supersede({"R3.4"}, "R3.6", "ties are exactly the equal values")
     rep.floor("R3.1", 8 * n)
     rep.floor("R3.2", 2 * n)
     rep.floor("R3.3", 2 * n)
